@@ -27,7 +27,6 @@ class C20(Prop):
         "NV.C20.seteuid_always_asks_master",
         "NV.C20.no_crash",
         "NV.C20.every_object_has_uid",
-        "NV.C20.master_is_never_replaced",
     ]
     consts = [("autoTrustBackbone", "NV_AUTO_TRUST_BACKBONE"), ("autoSeteuid", "NV_AUTO_SETEUID")]
     const_headers = ["lib/efuns/options.h"]
@@ -155,66 +154,102 @@ class C20(Prop):
         return B
 
     def gen_case(self, rng, cid):
+        """history generator; a rough shadow state (which ids exist, which probably have an euid) keeps most
+        operations effective - it only steers choices, the expected behaviour always comes from the model"""
         lines = []
-        bp = set()       # blueprint oids believed loaded (approximation; only steers the generator)
-        clones = []
+        objs = {"m": True}            # oid -> probably has an euid
         nclone = [0]
-        half_policy = rng.chance(1, 3)
-        if half_policy:
-            lines.append("pol vs * * %s" % rng.choice(["i:0", "i:1", "none"]))
+        refuse_default = rng.chance(1, 4)
+        if refuse_default:
+            lines.append("pol vs * * %s" % rng.choice(["i:0", "none"]))
 
-        def actors():
-            return ["m"] + sorted(bp) + clones
+        def actor():
+            if rng.chance(1, 25):
+                return rng.choice(["zz", "c99", "u1a", "oddc"])
+            ks = sorted(objs)
+            if rng.chance(1, 2):
+                withe = [k for k in ks if objs[k]]
+                if withe:
+                    return rng.choice(withe)
+            return rng.choice(ks)
 
-        def path(existing_bias=True):
+        def path():
             if rng.chance(1, 25):
                 return "/c20/%s/%s" % (rng.choice(DIRS + ["zz"]), rng.choice(["nofile", "x"]))
             return "/c20/%s/%s" % (rng.choice(DIRS), rng.choice(FILES))
 
-        nsteps = rng.range(4, 40)
+        def created(a, p, oid=None):
+            d, f = p.split("/")[2:4]
+            if d in DIRS and f in FILES and a in objs and objs[a]:
+                objs.setdefault(d + f, d == "bb")
+                if oid and oid.startswith("c"):
+                    objs[oid] = (d == "bb")
+
+        def some_obj(prefer_noeuid=False):
+            ks = sorted(objs)
+            if prefer_noeuid and rng.chance(2, 3):
+                ne = [k for k in ks if not objs[k]]
+                if ne:
+                    return rng.choice(ne)
+            return rng.choice(ks + ["zz"]) if rng.chance(1, 12) else rng.choice(ks)
+
+        nsteps = rng.range(4, 45)
         for _ in range(nsteps):
-            if rng.chance(1, 5):
+            if rng.chance(1, 6):
                 if rng.chance(1, 2):
                     lines.append("pol cf %s %s" % (rng.choice(DIRS), rng.choice(CF_SPECS)))
                 else:
-                    o = rng.choice(actors() + ["*", "*"])
+                    o = rng.choice(sorted(objs) + ["*", "*"])
                     u = rng.choice(NAMES + ["*", "*"])
                     lines.append("pol vs %s %s %s" % (o, u if u != "" else "-", rng.weighted(VS_SPECS)))
                 continue
-            a = rng.choice(actors()) if rng.chance(19, 20) else rng.choice(["zz", "c99", "u1a"])
-            k = rng.weighted([("seteuid", 10), ("load", 8), ("clone", 8), ("export", 6), ("dest", 2), ("reload", 2),
-                              ("seteuid0", 3), ("seteuidint", 1)])
+            a = actor()
+            k = rng.weighted([("seteuid", 10), ("load", 9), ("clone", 9), ("export", 7), ("dest", 2), ("reload", 2),
+                              ("seteuid0", 3), ("seteuidint", 1), ("cferr", 2)])
             if k == "seteuid":
                 lines.append("do %s seteuid,s:%s" % (a, rng.choice(NAMES)))
+                if a in objs and not refuse_default:
+                    objs[a] = True
             elif k == "seteuid0":
                 lines.append("do %s seteuid,i:0" % a)
+                if a in objs:
+                    objs[a] = False
             elif k == "seteuidint":
                 lines.append("do %s seteuid,i:%d" % (a, rng.choice([1, -1, 5, 0])))
             elif k == "load":
                 p = path()
                 lines.append("do %s load,%s" % (a, p))
-                d, f = p.split("/")[2:4]
-                if d in DIRS and f in FILES:
-                    bp.add(d + f)
+                created(a, p)
             elif k == "clone":
                 nclone[0] += 1
                 o = "c%d" % nclone[0]
                 if rng.chance(1, 30):
-                    o = rng.choice(["m", "u1a", clones[0] if clones else "c1"])
+                    o = rng.choice(["m", "u1a", "c1"])
                 p = path()
                 lines.append("do %s clone,%s,%s" % (a, o, p))
-                d, f = p.split("/")[2:4]
-                if d in DIRS and f in FILES:
-                    bp.add(d + f)
-                    if o not in clones and o.startswith("c"):
-                        clones.append(o)
+                created(a, p, o)
             elif k == "export":
-                lines.append("do %s export,%s" % (a, rng.choice(actors() + ["zz"])))
+                lines.append("do %s export,%s" % (a, some_obj(True)))
             elif k == "dest":
-                t = rng.choice(actors() + ["zz"])
+                t = some_obj()
                 lines.append("do %s dest,%s" % (a, t))
+                if t != "m":
+                    objs.pop(t, None)
+            elif k == "reload":
+                t = some_obj()
+                lines.append("do %s reload,%s" % (a, t))
+                if t in objs and t != "m":
+                    objs[t] = False
             else:
-                lines.append("do %s reload,%s" % (a, rng.choice(actors() + ["zz"])))
+                # the master raises an error in creator_file, later somebody finds the half-made object
+                d = rng.choice(DIRS)
+                p = "/c20/%s/%s" % (d, rng.choice(FILES))
+                lines.append("pol cf %s err" % d)
+                lines.append("do %s %s" % (a, rng.choice(["load,%s" % p, "clone,c%d,%s" % (nclone[0] + 50, p)])))
+                lines.append("pol cf %s %s" % (d, rng.choice(CF_SPECS)))
+                if rng.chance(2, 3):
+                    lines.append("do %s load,%s" % (actor(), p))
+                    created(a, p)
         return E.Case(cid, lines, {"origin": "generated"})
 
     def generate(self, rng, n, tier):
@@ -223,7 +258,7 @@ class C20(Prop):
     def histogram(self, cases, impl):
         h = {"steps": 0, "creations": 0, "cf_error": 0, "late_init": 0, "seteuid_approved": 0, "seteuid_refused": 0,
              "seteuid_zero": 0, "export_ok": 0, "export_refused": 0, "export_error": 0, "noeuid_load_error": 0,
-             "noeuid_clone_error": 0, "backbone_grants": 0, "policy_errors": 0, "nobj": 0, "found_loaded": 0, "reloads": 0,
+             "noeuid_clone_error": 0, "backbone_grants": 0, "policy_errors": 0, "nobj": 0, "reloads": 0,
              "crash": 0}
         for c in cases:
             cur = None
